@@ -16,12 +16,14 @@ BUDGET_S = {"quick": 100, "thorough": 900}
 
 
 def regular_se(rng, ndim):
-    kind = rng.choice(["cross", "box3", "box5", "disk1", "disk2", "disk3"])
+    kind = rng.choice(["cross", "box3", "box5", "disk1", "disk2", "disk3", "boxr", "boxr"])
     if kind == "cross":
         b = np.zeros([3] * ndim, int)
         for pos in itertools.product(range(3), repeat=ndim):
             if sum(abs(p - 1) for p in pos) <= 1:
                 b[pos] = 1
+    elif kind == "boxr":   # centred boxes with unequal odd sides (1x3, 3x1, 3x5, ...)
+        b = np.ones([rng.choice([1, 3, 5]) for _ in range(ndim)], int)
     elif kind.startswith("box"):
         b = np.ones([int(kind[3])] * ndim, int)
     else:
